@@ -1,5 +1,6 @@
 #include "fd.h"
 #include "spawn.h"
+#include "byte.h"
 #include "wait.h"
 #include "substdio.h"
 #include "exit.h"
@@ -77,7 +78,7 @@ int len;
 	 switch(s[k])
 	  {
 	   case 'Z': case 'D': case 'K':
-             substdio_puts(ss,s + k + 1);
+             substdio_put(ss,s + k + 1,byte_chr(s + k + 1,len - k - 1,0));
 	  }
      break;
     }
